@@ -334,7 +334,7 @@ func main() {
 	run.Parallel(len(cfgs), func(i int) { check(run, cfgs[i]) })
 	run.SetExtra("exhaustive_subspace", fmt.Sprintf("all assignments of the 31 non-empty scope masks to 0..%d global middleware entries (%d configurations) x 5 handler kinds + Route.Handle + Route.HandleMiddleware: enumerated completely", maxK, len(cfgs)))
 	// random beyond
-	n := run.Pick(400, 100000)
+	n := run.Pick(400, 1000000)
 	if run.Mode() == "race" {
 		n = 100
 	}
